@@ -289,7 +289,7 @@ impl Operation<CurrencyAmount> {
             } => Ok(Operation::Buy {
                 amount: *amount,
                 price: amount_to_gbp(price, date, fx_cache)?,
-                fees: amount_to_gbp(fees, date, fx_cache)?,
+                fees: optional_amount_to_gbp(fees, date, fx_cache)?,
             }),
             Operation::Sell {
                 amount,
@@ -298,14 +298,14 @@ impl Operation<CurrencyAmount> {
             } => Ok(Operation::Sell {
                 amount: *amount,
                 price: amount_to_gbp(price, date, fx_cache)?,
-                fees: amount_to_gbp(fees, date, fx_cache)?,
+                fees: optional_amount_to_gbp(fees, date, fx_cache)?,
             }),
             Operation::Dividend {
                 total_value,
                 tax_paid,
             } => Ok(Operation::Dividend {
                 total_value: amount_to_gbp(total_value, date, fx_cache)?,
-                tax_paid: amount_to_gbp(tax_paid, date, fx_cache)?,
+                tax_paid: optional_amount_to_gbp(tax_paid, date, fx_cache)?,
             }),
             Operation::Accumulation {
                 amount,
@@ -314,7 +314,7 @@ impl Operation<CurrencyAmount> {
             } => Ok(Operation::Accumulation {
                 amount: *amount,
                 total_value: amount_to_gbp(total_value, date, fx_cache)?,
-                tax_paid: amount_to_gbp(tax_paid, date, fx_cache)?,
+                tax_paid: optional_amount_to_gbp(tax_paid, date, fx_cache)?,
             }),
             Operation::CapReturn {
                 amount,
@@ -323,7 +323,7 @@ impl Operation<CurrencyAmount> {
             } => Ok(Operation::CapReturn {
                 amount: *amount,
                 total_value: amount_to_gbp(total_value, date, fx_cache)?,
-                fees: amount_to_gbp(fees, date, fx_cache)?,
+                fees: optional_amount_to_gbp(fees, date, fx_cache)?,
             }),
             Operation::Split { ratio } => Ok(Operation::Split { ratio: *ratio }),
             Operation::Unsplit { ratio } => Ok(Operation::Unsplit { ratio: *ratio }),
@@ -369,6 +369,20 @@ fn amount_to_gbp(
             year: date.year(),
             month: date.month(),
         })
+}
+
+/// Convert an optional FEES/TAX amount to GBP. A zero amount is zero in every currency and
+/// needs no rate: the DSL writer omits such a clause altogether, and the ledger must give the
+/// same result as its DSL rendering.
+fn optional_amount_to_gbp(
+    amount: &CurrencyAmount,
+    date: NaiveDate,
+    fx_cache: Option<&FxCache>,
+) -> Result<Decimal, CgtError> {
+    if amount.amount.is_zero() {
+        return Ok(Decimal::ZERO);
+    }
+    amount_to_gbp(amount, date, fx_cache)
 }
 
 /// Convert a slice of transactions to GBP-normalized transactions.
